@@ -17,7 +17,9 @@ META = {
 }
 
 ALGS = {'batch1': dict(kind='batch', parts=1, min=1), 'batch2': dict(kind='batch', parts=2, min=1), 'queue': dict(kind='queue'),
-        'batch3': dict(kind='batch', parts=3, min=1), 'reserve1': dict(kind='reserve_only', parts=1, min=1), 'reserve2': dict(kind='reserve_only', parts=2, min=1)}
+        'batch3': dict(kind='batch', parts=3, min=1),
+        # legal but unusual: no global minimum, per-observation (min, max) splits, many partitions
+        'batch0split': dict(kind='batch', parts=16, min=0, split={'o1': (2, 2), 'o2': (1, 1), 'o3': (1, 2)}), 'reserve1': dict(kind='reserve_only', parts=1, min=1), 'reserve2': dict(kind='reserve_only', parts=2, min=1)}
 
 
 def base_scenario(nobs=2):
@@ -130,6 +132,8 @@ def prof_static(v):
     sc['graphs'] = [dict(n=2, edges=[[0, 1, PIN.get('vol', 5)]] if PIN.get('edge', True) else [], durs=[da, db])]
     sc['assign'] = [[a0, a1], [b0, b1]]
     sc['ests'] = [[0, 1], [0, 1]] if eo == 0 else ([[0, 0], [0, 0]] if eo == 1 else [[1, 0], [1, 0]])
+    if PIN.get('names'):
+        sc['names'] = PIN['names']
     sc['cap'] = 80
     return sc
 
